@@ -212,7 +212,10 @@ class Merger(object):
         x_offset = 0.
         for array in channel_positions_l:
             array[:, 0] += x_offset
-            x_offset = 2. * array[:, 0].max() - array[:, 0].min()
+            # Leave a gap as wide as the probe; a probe of zero width (all channels on one
+            # column) is followed by a gap of one unit so that it is kept apart too.
+            x_min, x_max = array[:, 0].min(), array[:, 0].max()
+            x_offset = 2. * x_max - x_min if x_max > x_min else x_max + 1.
         channel_positions = _concat(channel_positions_l, axis=0)
         self._save('channel_positions.npy', channel_positions)
 
